@@ -180,7 +180,7 @@ V("c06-benign-inline-check-key", "C06", "benign", "", "_check_key inlined into E
 
 # ------------------------------------------------------------------------------------------------ C17
 V("c17-tail-only", "C17", "break", "R17.2", "completion assumed from unconsumed_tail alone",
-  "rfc7518/jwe_zips.py", "        if decompressor.unconsumed_tail or decompressor.decompress(b\"\", 1):", "        if decompressor.unconsumed_tail:")
+  "rfc7518/jwe_zips.py", "            exceeded = decompressor.unconsumed_tail or decompressor.decompress(b\"\", 1)", "            exceeded = decompressor.unconsumed_tail")
 V("c17-unbounded", "C17", "break", "R17.1", "inflate without max_length",
   "rfc7518/jwe_zips.py", "        value = decompressor.decompress(s, MAX_SIZE)", "        value = decompressor.decompress(s)")
 V("c17-huge-limit", "C17", "break", "R17.1", "MAX_SIZE raised to 250 MiB",
@@ -194,10 +194,10 @@ V("c17-decompress-ciphertext", "C17", "break", "R17.4", "decompression applied t
 V("c17-zlib-framed-output", "C17", "break", "R17.3", "compress keeps the zlib header and checksum",
   "rfc7518/jwe_zips.py", "        return data[2:-4]", "        return data")
 V("c17-benign-eof", "C17", "benign", "", "completion established through eof",
-  "rfc7518/jwe_zips.py", "        if decompressor.unconsumed_tail or decompressor.decompress(b\"\", 1):", "        if decompressor.unconsumed_tail or not decompressor.eof:")
+  "rfc7518/jwe_zips.py", "            exceeded = decompressor.unconsumed_tail or decompressor.decompress(b\"\", 1)", "            exceeded = decompressor.unconsumed_tail or not decompressor.eof")
 V("c17-benign-rename", "C17", "benign", "", "locals renamed, second pull bound to a name",
-  "rfc7518/jwe_zips.py", "        value = decompressor.decompress(s, MAX_SIZE)\n        # all the input may have been consumed while output is still pending,\n        # try to pull one more byte to find out if the limit is exceeded\n        if decompressor.unconsumed_tail or decompressor.decompress(b\"\", 1):",
-  "        out = decompressor.decompress(s, MAX_SIZE)\n        more = decompressor.decompress(decompressor.unconsumed_tail, 1)\n        value = out\n        if more:")
+  "rfc7518/jwe_zips.py", "            value = decompressor.decompress(s, MAX_SIZE)\n            # all the input may have been consumed while output is still pending,\n            # try to pull one more byte to find out if the limit is exceeded\n            exceeded = decompressor.unconsumed_tail or decompressor.decompress(b\"\", 1)",
+  "            out = decompressor.decompress(s, MAX_SIZE)\n            more = decompressor.decompress(decompressor.unconsumed_tail, 1)\n            value = out\n            exceeded = bool(more)")
 
 # ------------------------------------------------------------------------------------------------ C15
 V("c15-drop-check-header-validate", "C15", "break", "R15.1", "check_header removed from validate_compact",
@@ -332,3 +332,48 @@ V("c12-benign-filter-comprehension-like", "C12", "benign", "", "filter iterates 
   "rfc7517/models.py", "        for k in self.dict_value:\n            if k in self.value_registry and self.value_registry[k].private:", "        for k in list(self.dict_value):\n            if k in self.value_registry and self.value_registry[k].private:")
 V("c12-benign-okp-export-local", "C12", "benign", "", "OKP export_public_key assigns the dict to a local first",
   "rfc8037/okp_key.py", "        return {\n            \"crv\": get_key_curve(key),\n            \"x\": urlsafe_b64encode(x_bytes).decode(\"utf-8\"),\n        }", "        rv = {\n            \"crv\": get_key_curve(key),\n            \"x\": urlsafe_b64encode(x_bytes).decode(\"utf-8\"),\n        }\n        return rv")
+
+# ------------------------------------------------------------------------------------------------ C16
+V("c16-invalidtag-unmapped", "C16", "break", "E1", "InvalidTag no longer mapped in GCM decrypt",
+  "rfc7518/jwe_encs.py", "        try:\n            return d.update(ciphertext) + d.finalize()\n        except InvalidTag as error:\n            raise DecodeError(str(error))", "        return d.update(ciphertext) + d.finalize()")
+V("c16-invalidunwrap-unmapped", "C16", "break", "E1", "InvalidUnwrap no longer mapped",
+  "rfc7518/jwe_algs.py", "        try:\n            cek = aes_key_unwrap(key, ek, default_backend())\n        except InvalidUnwrap:\n            raise DecodeError(\"Unwrap AES key failed\")\n        return cek", "        cek = aes_key_unwrap(key, ek, default_backend())\n        return cek")
+V("c16-zlib-error-unmapped", "C16", "break", "E1", "zlib.error escapes again",
+  "rfc7518/jwe_zips.py", "        except zlib.error as error:\n            raise DecodeError(f\"Invalid compressed data: {error}\")", "        except KeyError as error:\n            raise DecodeError(f\"Invalid compressed data: {error}\")")
+V("c16-recursion-unmapped", "C16", "break", "E1", "RecursionError of json.loads escapes",
+  "util.py", "    except RecursionError:\n        # deeply nested JSON from an untrusted source\n        raise ValueError(\"JSON is nested too deep\")", "    except MemoryError:\n        raise ValueError(\"JSON is nested too deep\")")
+V("c16-p2c-unbounded", "C16", "break", "E1", "PBES2 count only bounded below",
+  "rfc7518/jwe_algs.py", "        if p2c < 1 or p2c > self.MAX_P2C:", "        if p2c < 1:")
+V("c16-p2c-bound-too-high", "C16", "break", "E1", "PBES2 upper bound above the backend limit",
+  "rfc7518/jwe_algs.py", "    MAX_P2C = 2 ** 31 - 1", "    MAX_P2C = 2 ** 40")
+V("c16-header-not-dict", "C16", "break", "E2a", "compact JWS header container check removed",
+  "rfc7515/compact.py", "        if not isinstance(protected, dict):\n            raise DecodeError(\"Invalid header\")\n", "")
+V("c16-json-member-not-dict", "C16", "break", "E2a", "JSON JWS protected header stored unchecked",
+  "rfc7515/json.py", "        protected = json_b64decode(protected_segment)\n        if not isinstance(protected, dict):\n            raise DecodeError(\"Invalid header\")\n        member.protected = protected", "        member.protected = json_b64decode(protected_segment)")
+V("c16-crit-unchecked", "C16", "break", "E2b", "crit iterated without a type check",
+  "registry.py", "        if not isinstance(header[\"crit\"], list):\n            raise ValueError('\"crit\" in header must be a list[str]')\n", "")
+V("c16-gate-untyped", "C16", "break", "E2c", "JWE gate without the str check",
+  "rfc7516/registry.py", "        if not isinstance(name, str) or name not in registry:", "        if name not in registry:")
+V("c16-json-enc-optional", "C16", "break", "E2c", "JSON JWE extractor no longer requires enc",
+  "rfc7516/json.py", "    if \"enc\" not in protected:\n        raise MissingEncryptionError()\n", "")
+V("c16-crv-lookup-unguarded", "C16", "break", "E2d", "EC public import indexes the curve table directly",
+  "rfc7518/ec_key.py", "    def import_public_key(cls, obj: ECDictKey) -> EllipticCurvePublicKey:\n        if obj[\"crv\"] not in cls._dss_curves:\n            raise ValueError('Invalid crv value: \"{}\"'.format(obj[\"crv\"]))\n", "    def import_public_key(cls, obj: ECDictKey) -> EllipticCurvePublicKey:\n")
+V("c16-use-lookup-unguarded", "C16", "break", "E2d", "use/key_ops consistency indexes with an unchecked use",
+  "rfc7517/models.py", "            if not isinstance(_use, str) or _use not in cls.use_key_ops_registry:\n                raise ValueError('\"use\" must be one of {}'.format(list(cls.use_key_ops_registry)))\n", "")
+V("c16-encrypted-key-none", "C16", "break", "E3", "flattened JSON JWE leaves encrypted_key at None",
+  "rfc7516/json.py", "    else:\n        # an absent \"encrypted_key\" member is the empty octet sequence\n        recipient.encrypted_key = b\"\"\n    obj.recipients.append(recipient)\n    return obj", "    obj.recipients.append(recipient)\n    return obj")
+V("c16-eddsa-assert", "C16", "break", "E3", "EdDSA verify asserts the key type again",
+  "rfc8037/jws_eddsa.py", "        op_key = key.get_op_key(\"verify\")\n        if not isinstance(op_key, (Ed25519PublicKey, Ed448PublicKey)):\n            raise ValueError('Key for \"EdDSA\" not supported, only \"Ed25519\" and \"Ed448\" allowed')", "        op_key = key.get_op_key(\"verify\")\n        assert isinstance(op_key, (Ed25519PublicKey, Ed448PublicKey))")
+V("c16-new-assert-on-token-data", "C16", "break", "E3", "a new assert on token data",
+  "rfc7516/compact.py", "    parts = value.split(b\".\")\n    if len(parts) != 5:\n        raise ValueError(\"Invalid JSON Web Encryption\")", "    parts = value.split(b\".\")\n    assert len(parts) == 5")
+V("c16-7797-no-key-type", "C16", "break", "E4", "RFC 7797 compact verify without check_key_type",
+  "rfc7797/compact.py", "    alg = registry.get_alg(headers[\"alg\"])\n    alg.check_key_type(key)\n\n    signing_input = obj.segments", "    alg = registry.get_alg(headers[\"alg\"])\n\n    signing_input = obj.segments")
+V("c16-rsa-decrypt-no-key-type", "C16", "break", "E4", "RSA decrypt_cek without check_key_type",
+  "rfc7518/jwe_algs.py", "        self.check_key_type(key)\n        op_key = key.get_op_key(\"decrypt\")", "        op_key = key.get_op_key(\"decrypt\")")
+V("c16-raise-keyerror", "C16", "break", "E5", "get_by_kid raises KeyError",
+  "_keys.py", "        raise InvalidKeyIdError(f'No key for kid: \"{kid}\"')", "        raise KeyError(f'No key for kid: \"{kid}\"')")
+V("c16-benign-decode-error-subclass", "C16", "benign", "", "header container check raises ValueError instead of DecodeError",
+  "rfc7516/compact.py", "        if not isinstance(protected, dict):\n            raise DecodeError(\"Invalid header\")", "        if not isinstance(protected, dict):\n            raise ValueError(\"Invalid header\")")
+V("c16-benign-crv-try", "C16", "benign", "", "OKP curve lookup guarded by a KeyError handler",
+  "rfc8037/okp_key.py", "        if obj[\"crv\"] not in PUBLIC_KEYS_MAP:\n            raise ValueError('Invalid crv value: \"{}\"'.format(obj[\"crv\"]))\n        crv_key: t.Type[PublicOKPKey] = PUBLIC_KEYS_MAP[obj[\"crv\"]]",
+  "        try:\n            crv_key: t.Type[PublicOKPKey] = PUBLIC_KEYS_MAP[obj[\"crv\"]]\n        except KeyError:\n            raise ValueError('Invalid crv value')")
